@@ -6,9 +6,9 @@
     Method: a step-indexed simulation [sim j c n] ("for the next [j] clocks, machine state [n] behaves
     like reference control state [c]"), and a Hoare-style lemma [exec_sim] by induction on the statement:
     the code [ctree s ...] placed in the current state behaves like [Coro.exec f s k ...] for every
-    fuel [f >= fneed s nf], given specifications of the three ways [s] can hand over control without a
-    clock passing (fall through / break / continue: [Now]) and of the same after a clock ([Later], one
-    index lower).  Fuel: [fchk] makes [Coro.ref_fuel] sufficient at every resumption. *)
+    fuel [f >= fneed s nf], given specifications of the four ways [s] can hand over control without a
+    clock passing (fall through / break / continue / return: [Now]) and of the same after a clock
+    ([Later], one index lower).  Fuel: [fchk] makes [Coro.ref_fuel] sufficient at every resumption. *)
 From Coq Require Import ZArith NArith List Bool Lia Arith.
 From Cohdl Require Import Base.Bits Vhdl.Value Models.Coro Models.Lower Equiv.Explore.
 Import ListNotations.
@@ -18,9 +18,10 @@ Local Opaque ref_fuel.
 (** ** static facts *)
 Lemma fo_false s : fo s false = false.
 Proof.
-  induction s as [| | a IHa b IHb | | | |c| | | | | |]; cbn; try reflexivity.
+  induction s as [| | a IHa b IHb | | | |c| | | |b0 IHb0| |]; cbn; try reflexivity.
   - rewrite IHa. exact IHb.
   - destruct c; reflexivity.
+  - exact IHb0.
 Qed.
 
 Lemma fo_true_first s f : fo s f = true -> f = true.
@@ -28,40 +29,51 @@ Proof. destruct f; [reflexivity|]. rewrite fo_false. discriminate. Qed.
 
 Lemma ctree_transparent s : forall o E r, fo s true = true -> ctree s o E true r = r.
 Proof.
-  induction s as [| | a IHa b IHb | | | |c| | | | | |]; intros o E r H; cbn in *; try discriminate; try reflexivity.
+  induction s as [| | a IHa b IHb | | | |c| | | |b0 IHb0| |]; intros o E r H; cbn in *; try discriminate; try reflexivity.
   - pose proof (fo_true_first _ _ H) as Ha. rewrite Ha in H |- *. rewrite (IHa _ _ _ Ha). apply IHb. exact H.
   - destruct c; try discriminate. reflexivity.
+  - apply IHb0. exact H.
 Qed.
 
 Lemma fneed_ge s : forall nf, (nf <= fneed s nf)%nat.
 Proof.
-  induction s as [| | a IHa b IHb |c t IHt e IHe|c b IHb| | | | | | | |]; intros nf; cbn; try lia.
+  induction s as [| | a IHa b IHb |c t IHt e IHe|c b IHb| | | | | |b0 IHb0| |]; intros nf; cbn; try lia.
   - specialize (IHa (S (fneed b nf))). specialize (IHb nf). lia.
   - specialize (IHt nf). lia.
+  - specialize (IHb0 (S nf)). lia.
 Qed.
 
 Lemma ctree_indep s : forall o E E' f r r',
   (zfall s f = true -> r = r') ->
   (zbrk s f = true -> e_brk E = e_brk E') ->
   (zcnt s f = true -> e_cnt E = e_cnt E') ->
+  (zret s f = true -> e_ret E = e_ret E') ->
   ctree s o E f r = ctree s o E' f r'.
 Proof.
-  induction s as [| | a IHa b IHb |c t IHt e IHe|c b IHb| |c| | | | | |]; intros o E E' f r r' Hf Hb Hc; cbn in *;
-    try reflexivity; try (apply Hf; reflexivity); try (apply Hb; reflexivity); try (apply Hc; reflexivity).
+  induction s as [| | a IHa b IHb |c t IHt e IHe|c b IHb| |c| | | |b0 IHb0| |]; intros o E E' f r r' Hf Hb Hc Hr; cbn in *;
+    try reflexivity; try (apply Hf; reflexivity); try (apply Hb; reflexivity); try (apply Hc; reflexivity);
+    try (apply Hr; reflexivity).
   - f_equal. apply Hf. reflexivity.
   - apply IHa.
     + intros Ha. rewrite Ha in *. cbn in *. apply IHb.
       * exact Hf.
       * intros Hz. apply Hb. rewrite Hz. apply orb_true_r.
       * intros Hz. apply Hc. rewrite Hz. apply orb_true_r.
+      * intros Hz. apply Hr. rewrite Hz. apply orb_true_r.
     + intros Hz. apply Hb. rewrite Hz. reflexivity.
     + intros Hz. apply Hc. rewrite Hz. reflexivity.
+    + intros Hz. apply Hr. rewrite Hz. reflexivity.
   - f_equal.
-    + apply IHt; intros Hz; [apply Hf|apply Hb|apply Hc]; rewrite Hz; reflexivity.
-    + apply IHe; intros Hz; [apply Hf|apply Hb|apply Hc]; rewrite Hz; apply orb_true_r.
-  - destruct f; [|reflexivity]. rewrite (Hf eq_refl). reflexivity.
+    + apply IHt; intros Hz; [apply Hf|apply Hb|apply Hc|apply Hr]; rewrite Hz; reflexivity.
+    + apply IHe; intros Hz; [apply Hf|apply Hb|apply Hc|apply Hr]; rewrite Hz; apply orb_true_r.
+  - destruct f; [|reflexivity]. cbn in Hr. rewrite (Hf eq_refl).
+    rewrite (IHb (S o) {| e_brk := r'; e_cnt := TStay; e_ret := e_ret E |}
+                 {| e_brk := r'; e_cnt := TStay; e_ret := e_ret E' |} false (TGoto O) (TGoto O)); auto.
   - destruct f; [|reflexivity]. apply Hf. reflexivity.
   - destruct c; destruct f; try reflexivity; rewrite (Hf eq_refl); reflexivity.
+  - apply IHb0; cbn [e_brk e_cnt e_ret]; auto.
+    + intros Hz. apply Hf. rewrite Hz. reflexivity.
+    + intros Hz. apply Hf. rewrite Hz. apply orb_true_r.
 Qed.
 
 (** ** the reference, one clock, on control state and work *)
@@ -121,14 +133,20 @@ Definition cntspec (j : nat) (k : kont) (E : env) (nf : nat) : Prop :=
   forall f inp w cur, (nf <= f)%nat ->
     good (sim j) (exec f inp Continue k false w) (run_tree inp (e_cnt E) cur w).
 
-Definition Full j k rest E nf (il : bool) : Prop :=
-  fallspec j k rest false nf /\ (il = true -> brkspec j k E nf /\ cntspec j k E nf).
-Definition Later j k rest E nf il : Prop :=
-  match j with O => True | S j' => Full j' k rest E nf il end.
+Definition retspec (j : nat) (k : kont) (E : env) (nf : nat) : Prop :=
+  forall f inp w cur, (nf <= f)%nat ->
+    good (sim j) (exec f inp Return k false w) (run_tree inp (e_ret E) cur w).
+
+Definition Full j k rest E nf (il ic : bool) : Prop :=
+  fallspec j k rest false nf /\ (il = true -> brkspec j k E nf /\ cntspec j k E nf) /\
+  (ic = true -> retspec j k E nf).
+Definition Later j k rest E nf il ic : Prop :=
+  match j with O => True | S j' => Full j' k rest E nf il ic end.
 Definition Now j (s : stmt) (first : bool) k rest E nf : Prop :=
   (zfall s first = true -> fallspec j k rest (fo s first) nf) /\
   (zbrk s first = true -> brkspec j k E nf) /\
-  (zcnt s first = true -> cntspec j k E nf).
+  (zcnt s first = true -> cntspec j k E nf) /\
+  (zret s first = true -> retspec j k E nf).
 
 Lemma fallspec_mono j k rest fl nf : fallspec (S j) k rest fl nf -> fallspec j k rest fl nf.
 Proof. intros H f inp w cur Hf Hc. apply good_mono, H; assumption. Qed.
@@ -136,12 +154,15 @@ Lemma brkspec_mono j k E nf : brkspec (S j) k E nf -> brkspec j k E nf.
 Proof. intros H f inp w cur Hf. apply good_mono, H; assumption. Qed.
 Lemma cntspec_mono j k E nf : cntspec (S j) k E nf -> cntspec j k E nf.
 Proof. intros H f inp w cur Hf. apply good_mono, H; assumption. Qed.
-Lemma Full_mono j k rest E nf il : Full (S j) k rest E nf il -> Full j k rest E nf il.
+Lemma retspec_mono j k E nf : retspec (S j) k E nf -> retspec j k E nf.
+Proof. intros H f inp w cur Hf. apply good_mono, H; assumption. Qed.
+Lemma Full_mono j k rest E nf il ic : Full (S j) k rest E nf il ic -> Full j k rest E nf il ic.
 Proof.
-  intros [H1 H2]. split; [apply fallspec_mono, H1|]. intros Hi. destruct (H2 Hi) as [Hb Hc].
-  split; [apply brkspec_mono, Hb|apply cntspec_mono, Hc].
+  intros (H1 & H2 & H3). split; [apply fallspec_mono, H1|]. split.
+  - intros Hi. destruct (H2 Hi) as [Hb Hc]. split; [apply brkspec_mono, Hb|apply cntspec_mono, Hc].
+  - intros Hi. apply retspec_mono, H3, Hi.
 Qed.
-Lemma Full_Later j k rest E nf il : Full j k rest E nf il -> Later j k rest E nf il.
+Lemma Full_Later j k rest E nf il ic : Full j k rest E nf il ic -> Later j k rest E nf il ic.
 Proof. destruct j as [|j]; [intros _; exact I|]. apply Full_mono. Qed.
 
 (** ** sleeping states *)
@@ -151,8 +172,8 @@ Proof.
   intros inp w. rewrite Ht. cbn. repeat split; [discriminate|exact IH].
 Qed.
 
-Lemma poll_sim c k rest E nf il n : tree_at m n = TIf c rest TStay -> (nf <= ref_fuel)%nat ->
-  forall j, Later j k rest E nf il -> sim j (Polling c k) n.
+Lemma poll_sim c k rest E nf il ic n : tree_at m n = TIf c rest TStay -> (nf <= ref_fuel)%nat ->
+  forall j, Later j k rest E nf il ic -> sim j (Polling c k) n.
 Proof.
   intros Ht Hn. induction j as [|j IH]; intros HL; [exact I|].
   intros inp w. rewrite Ht. cbn [rclock run_tree].
@@ -161,8 +182,8 @@ Proof.
   - repeat split; [discriminate|]. apply IH. apply Full_Later. exact HL.
 Qed.
 
-Lemma delay_sim k rest E nf il n : tree_at m n = rest -> (nf <= ref_fuel)%nat ->
-  forall j, Later j k rest E nf il -> sim j (Delay k) n.
+Lemma delay_sim k rest E nf il ic n : tree_at m n = rest -> (nf <= ref_fuel)%nat ->
+  forall j, Later j k rest E nf il ic -> sim j (Delay k) n.
 Proof.
   intros Ht Hn [|j] HL; [exact I|].
   intros inp w. rewrite Ht. cbn [rclock]. apply (proj1 HL); [exact Hn|discriminate].
@@ -175,24 +196,41 @@ Proof. intros H. split; intros n t Hi; apply H, in_or_app; auto. Qed.
 End Sim.
 
 (** ** the statement lemma *)
-Lemma wf_noloop s : forall f, wf s false = true -> zbrk s f = false /\ zcnt s f = false.
+Lemma wf_noloop s : forall ic fi f, wf s false ic fi = true -> zbrk s f = false /\ zcnt s f = false.
 Proof.
-  induction s as [| | a IHa b IHb |c t IHt e IHe|c b IHb| | | | | | | |]; intros f H; cbn in *;
+  induction s as [| | a IHa b IHb |c t IHt e IHe|c b IHb| | | | | | | |]; intros ic fi f H; cbn in *;
     try (split; reflexivity); try discriminate.
   - apply andb_true_iff in H. destruct H as [Ha Hb].
-    destruct (IHa f Ha) as [-> ->]. destruct (IHb (fo a f) Hb) as [-> ->].
+    destruct (IHa _ _ f Ha) as [-> ->]. destruct (IHb _ _ (fo a f) Hb) as [-> ->].
     rewrite !andb_false_r. split; reflexivity.
   - apply andb_true_iff in H. destruct H as [Ht He].
-    destruct (IHt false Ht) as [-> ->]. destruct (IHe false He) as [-> ->]. split; reflexivity.
+    destruct (IHt _ _ false Ht) as [-> ->]. destruct (IHe _ _ false He) as [-> ->]. split; reflexivity.
+Qed.
+
+Lemma wf_nocall s : forall il fi f, wf s il false fi = true -> zret s f = false.
+Proof.
+  induction s as [| | a IHa b IHb |c t IHt e IHe|c b IHb| | | | | | | |]; intros il fi f H; cbn in *;
+    try reflexivity; try discriminate.
+  - apply andb_true_iff in H. destruct H as [Ha Hb].
+    rewrite (IHa _ _ f Ha), (IHb _ _ (fo a f) Hb). rewrite andb_false_r. reflexivity.
+  - apply andb_true_iff in H. destruct H as [Ht He].
+    rewrite (IHt _ _ false Ht), (IHe _ _ false He). reflexivity.
+  - apply andb_true_iff in H. destruct H as [Hb _]. rewrite (IHb _ _ false Hb). apply andb_false_r.
 Qed.
 
 Lemma exec_break_first f inp k first w : exec f inp Break k first w = exec f inp Break k false w.
 Proof. destruct f; reflexivity. Qed.
 Lemma exec_cont_first f inp k first w : exec f inp Continue k first w = exec f inp Continue k false w.
 Proof. destruct f; reflexivity. Qed.
+Lemma exec_ret_first f inp k first w : exec f inp Return k first w = exec f inp Return k false w.
+Proof. destruct f; reflexivity. Qed.
 Lemma exec_break_kseq f inp b k w : exec f inp Break (KSeq b k) false w = exec f inp Break k false w.
 Proof. destruct f; reflexivity. Qed.
 Lemma exec_cont_kseq f inp b k w : exec f inp Continue (KSeq b k) false w = exec f inp Continue k false w.
+Proof. destruct f; reflexivity. Qed.
+Lemma exec_ret_kseq f inp b k w : exec f inp Return (KSeq b k) false w = exec f inp Return k false w.
+Proof. destruct f; reflexivity. Qed.
+Lemma exec_ret_kloop f inp c b k w : exec f inp Return (KLoop c b k) false w = exec f inp Return k false w.
 Proof. destruct f; reflexivity. Qed.
 
 Section Exec.
@@ -202,18 +240,19 @@ Local Notation sim := (sim p m).
 Local Notation fallspec := (fallspec p m).
 Local Notation brkspec := (brkspec p m).
 Local Notation cntspec := (cntspec p m).
+Local Notation retspec := (retspec p m).
 Local Notation Full := (Full p m).
 Local Notation Later := (Later p m).
 Local Notation Now := (Now p m).
 Local Notation sub := (sub m).
 
 Definition P (s : stmt) : Prop :=
-  forall j o E first rest k nf nfl il,
-    wf s il = true -> fchk s nfl = true ->
+  forall j o E first rest k nf nfl il ic,
+    wf s il ic first = true -> fchk s nfl = true ->
     sub (cstates s o E first rest) ->
     (first = true -> tree_at m O = ctree s o E first rest) ->
     Now j s first k rest E nf ->
-    (fo s first = false -> Later j k rest E nfl il) ->
+    (fo s first = false -> Later j k rest E nfl il ic) ->
     forall f inp w cur, (fneed s nf <= f)%nat -> (first = true -> cur = O) ->
       good (sim j) (exec f inp s k first w) (run_tree inp (ctree s o E first rest) cur w).
 
@@ -221,103 +260,154 @@ Lemma brk_kseq j b k E nf nf' : brkspec j k E nf -> (nf <= nf')%nat -> brkspec j
 Proof. intros H Hle f inp w cur Hf. rewrite exec_break_kseq. apply H. lia. Qed.
 Lemma cnt_kseq j b k E nf nf' : cntspec j k E nf -> (nf <= nf')%nat -> cntspec j (KSeq b k) E nf'.
 Proof. intros H Hle f inp w cur Hf. rewrite exec_cont_kseq. apply H. lia. Qed.
+Lemma ret_kseq j b k E nf nf' : retspec j k E nf -> (nf <= nf')%nat -> retspec j (KSeq b k) E nf'.
+Proof. intros H Hle f inp w cur Hf. rewrite exec_ret_kseq. apply H. lia. Qed.
 
 Lemma P_skip : P Skip.
 Proof.
-  intros j o E first rest k nf nfl il _ _ _ _ HN _ f inp w cur Hf Hcur.
+  intros j o E first rest k nf nfl il ic _ _ _ _ HN _ f inp w cur Hf Hcur.
   cbn [fneed] in Hf. destruct f as [|f]; [lia|]. cbn [exec ctree].
   apply (proj1 HN); [reflexivity|lia|exact Hcur].
 Qed.
 
 Lemma P_eff e : P (Eff e).
 Proof.
-  intros j o E first rest k nf nfl il _ _ _ _ HN _ f inp w cur Hf Hcur.
+  intros j o E first rest k nf nfl il ic _ _ _ _ HN _ f inp w cur Hf Hcur.
   cbn [fneed] in Hf. destruct f as [|f]; [lia|]. cbn [exec ctree run_tree].
   apply (proj1 HN); [reflexivity|lia|discriminate].
 Qed.
 
 Lemma P_break : P Break.
 Proof.
-  intros j o E first rest k nf nfl il _ _ _ _ HN _ f inp w cur Hf Hcur.
+  intros j o E first rest k nf nfl il ic _ _ _ _ HN _ f inp w cur Hf Hcur.
   cbn [fneed] in Hf. rewrite exec_break_first. cbn [ctree].
   apply (proj1 (proj2 HN)); [reflexivity|lia].
 Qed.
 
 Lemma P_continue : P Continue.
 Proof.
-  intros j o E first rest k nf nfl il _ _ _ _ HN _ f inp w cur Hf Hcur.
+  intros j o E first rest k nf nfl il ic _ _ _ _ HN _ f inp w cur Hf Hcur.
   cbn [fneed] in Hf. rewrite exec_cont_first. cbn [ctree].
-  apply (proj2 (proj2 HN)); [reflexivity|lia].
+  apply (proj1 (proj2 (proj2 HN))); [reflexivity|lia].
 Qed.
 
-Lemma seq_fall b (Pb : P b) j o E fl rest k nf nfl il :
-  wf b il = true -> fchk b nfl = true -> sub (cstates b o E fl rest) ->
+Lemma P_return : P Return.
+Proof.
+  intros j o E first rest k nf nfl il ic _ _ _ _ HN _ f inp w cur Hf Hcur.
+  cbn [fneed] in Hf. rewrite exec_ret_first. cbn [ctree].
+  apply (proj2 (proj2 (proj2 HN))); [reflexivity|lia].
+Qed.
+
+Lemma seq_fall b (Pb : P b) j o E fl rest k nf nfl il ic :
+  wf b il ic fl = true -> fchk b nfl = true -> sub (cstates b o E fl rest) ->
   (fl = true -> tree_at m O = ctree b o E fl rest) ->
-  Now j b fl k rest E nf -> (fo b fl = false -> Later j k rest E nfl il) ->
+  Now j b fl k rest E nf -> (fo b fl = false -> Later j k rest E nfl il ic) ->
   fallspec j (KSeq b k) (ctree b o E fl rest) fl (S (fneed b nf)).
 Proof.
   intros Hw Hc Hs H0 HN HL f inp w cur Hf Hcur.
   destruct f as [|f]; [lia|]. cbn [cont].
-  apply (Pb j o E fl rest k nf nfl il); auto. lia.
+  apply (Pb j o E fl rest k nf nfl il ic); auto. lia.
 Qed.
 
 Lemma P_seq a b : P a -> P b -> P (Seq a b).
 Proof.
-  intros Pa Pb j o E first rest k nf nfl il Hwf Hck Hsub H0 HN HL f inp w cur Hf Hcur.
+  intros Pa Pb j o E first rest k nf nfl il ic Hwf Hck Hsub H0 HN HL f inp w cur Hf Hcur.
   cbn [wf] in Hwf. apply andb_true_iff in Hwf. destruct Hwf as [Hwa Hwb].
   cbn [fchk] in Hck. apply andb_true_iff in Hck. destruct Hck as [Hca Hcb].
   cbn [cstates] in Hsub. apply sub_app in Hsub. destruct Hsub as [Hsa Hsb].
-  destruct HN as (HNf & HNb & HNc). cbn [zfall zbrk zcnt fo] in HNf, HNb, HNc, HL.
+  destruct HN as (HNf & HNb & HNc & HNr). cbn [zfall zbrk zcnt zret fo] in HNf, HNb, HNc, HNr, HL.
   cbn [fneed] in Hf. destruct f as [|f]; [lia|].
   cbn [exec ctree]. cbn [ctree] in H0.
-  apply (Pa j (S o) E first _ (KSeq b k) (S (fneed b nf)) (S (fneed b nfl)) il); auto; [| |lia].
+  apply (Pa j (S o) E first _ (KSeq b k) (S (fneed b nf)) (S (fneed b nfl)) il ic); auto; [| |lia].
   - (* Now *)
-    split; [|split].
-    + intros Hza. rewrite Hza in HNf, HNb, HNc. cbn [andb] in HNf, HNb, HNc.
-      apply (seq_fall b Pb j _ E _ rest k nf nfl il); auto.
+    split; [|split; [|split]].
+    + intros Hza. rewrite Hza in HNf, HNb, HNc, HNr. cbn [andb] in HNf, HNb, HNc, HNr.
+      apply (seq_fall b Pb j _ E _ rest k nf nfl il ic); auto.
       * intros Hfa. pose proof (fo_true_first _ _ Hfa) as Hfi. rewrite (H0 Hfi). rewrite Hfi in Hfa |- *.
         rewrite Hfa. apply ctree_transparent. exact Hfa.
-      * split; [exact HNf|split]; intros Hz; [apply HNb|apply HNc]; rewrite Hz; apply orb_true_r.
+      * split; [exact HNf|split; [|split]]; intros Hz; [apply HNb|apply HNc|apply HNr]; rewrite Hz; apply orb_true_r.
     + intros Hz. apply (brk_kseq j b k E nf); [apply HNb; rewrite Hz; reflexivity|].
       pose proof (fneed_ge b nf). lia.
     + intros Hz. apply (cnt_kseq j b k E nf); [apply HNc; rewrite Hz; reflexivity|].
       pose proof (fneed_ge b nf). lia.
+    + intros Hz. apply (ret_kseq j b k E nf); [apply HNr; rewrite Hz; reflexivity|].
+      pose proof (fneed_ge b nf). lia.
   - (* Later *)
     intros Hfa. destruct j as [|j']; [exact I|]. cbn [Lower.fo] in *.
-    rewrite Hfa in HL, Hsb |- *. specialize (HL (fo_false b)). cbn in HL.
+    rewrite Hfa in HL, Hsb, Hwb |- *. specialize (HL (fo_false b)). cbn in HL.
+    destruct HL as (HLf & HLbc & HLr).
     assert (HNb' : Now j' b false k rest E nfl).
-    { split; [|split].
-      - intros _. rewrite fo_false. exact (proj1 HL).
-      - intros Hz. destruct il; [exact (proj1 (proj2 HL eq_refl))|].
-        destruct (wf_noloop b false Hwb) as [Hx _]. congruence.
-      - intros Hz. destruct il; [exact (proj2 (proj2 HL eq_refl))|].
-        destruct (wf_noloop b false Hwb) as [_ Hx]. congruence. }
-    split.
-    + apply (seq_fall b Pb j' _ E false rest k nfl nfl il); auto; [discriminate|].
-      intros _. apply Full_Later. exact HL.
-    + intros Hil. destruct (proj2 HL Hil) as [Hb Hc]. pose proof (fneed_ge b nfl).
+    { split; [|split; [|split]].
+      - intros _. rewrite fo_false. exact HLf.
+      - intros Hz. destruct il; [exact (proj1 (HLbc eq_refl))|].
+        destruct (wf_noloop b _ _ false Hwb) as [Hx _]. congruence.
+      - intros Hz. destruct il; [exact (proj2 (HLbc eq_refl))|].
+        destruct (wf_noloop b _ _ false Hwb) as [_ Hx]. congruence.
+      - intros Hz. destruct ic; [exact (HLr eq_refl)|].
+        pose proof (wf_nocall b _ _ false Hwb) as Hx. congruence. }
+    pose proof (fneed_ge b nfl) as Hge.
+    split; [|split].
+    + apply (seq_fall b Pb j' _ E false rest k nfl nfl il ic); auto; [discriminate|].
+      intros _. apply Full_Later. split; [exact HLf|split; assumption].
+    + intros Hil. destruct (HLbc Hil) as [Hb Hc].
       split; [apply (brk_kseq j' b k E nfl)|apply (cnt_kseq j' b k E nfl)]; auto; lia.
+    + intros Hic. apply (ret_kseq j' b k E nfl); [exact (HLr Hic)|lia].
 Qed.
 
 Lemma P_if c t e : P t -> P e -> P (If c t e).
 Proof.
-  intros Pt Pe j o E first rest k nf nfl il Hwf Hck Hsub H0 HN HL f inp w cur Hf Hcur.
+  intros Pt Pe j o E first rest k nf nfl il ic Hwf Hck Hsub H0 HN HL f inp w cur Hf Hcur.
   cbn [wf] in Hwf. apply andb_true_iff in Hwf. destruct Hwf as [Hwt Hwe].
   cbn [fchk] in Hck. apply andb_true_iff in Hck. destruct Hck as [Hct Hce].
   cbn [cstates] in Hsub. apply sub_app in Hsub. destruct Hsub as [Hst Hse].
-  destruct HN as (HNf & HNb & HNc). cbn [zfall zbrk zcnt fo] in HNf, HNb, HNc, HL.
+  destruct HN as (HNf & HNb & HNc & HNr). cbn [zfall zbrk zcnt zret fo] in HNf, HNb, HNc, HNr, HL.
   cbn [fneed] in Hf. destruct f as [|f]; [lia|].
   cbn [exec ctree run_tree]. specialize (HL eq_refl).
   destruct (ceval inp (w_v w) c).
-  - apply (Pt j (S o) E false rest k nf nfl il); auto; try discriminate; [|lia].
-    split; [|split]; intros Hz; [rewrite fo_false; apply HNf|apply HNb|apply HNc]; rewrite Hz; reflexivity.
-  - apply (Pe j _ E false rest k nf nfl il); auto; try discriminate; [|lia].
-    split; [|split]; intros Hz; [rewrite fo_false; apply HNf|apply HNb|apply HNc]; rewrite Hz; apply orb_true_r.
+  - apply (Pt j (S o) E false rest k nf nfl il ic); auto; try discriminate; [|lia].
+    split; [|split; [|split]]; intros Hz; [rewrite fo_false; apply HNf|apply HNb|apply HNc|apply HNr]; rewrite Hz; reflexivity.
+  - apply (Pe j _ E false rest k nf nfl il ic); auto; try discriminate; [|lia].
+    split; [|split; [|split]]; intros Hz; [rewrite fo_false; apply HNf|apply HNb|apply HNc|apply HNr]; rewrite Hz; apply orb_true_r.
+Qed.
+
+Lemma zret_fo s : forall f, zret s f = true -> Lower.fo s f = false.
+Proof.
+  induction s as [| | a IHa b IHb |c t IHt e IHe|c b IHb| | | | | | | |]; intros f H; cbn in *;
+    try discriminate; try reflexivity.
+  apply orb_true_iff in H. destruct H as [H|H].
+  - rewrite (IHa _ H). apply fo_false.
+  - apply andb_true_iff in H. apply IHb. exact (proj2 H).
+Qed.
+
+Lemma P_call b : P b -> P (Call b).
+Proof.
+  intros Pb j o E first rest k nf nfl il ic Hwf Hck Hsub H0 HN HL f inp w cur Hf Hcur.
+  cbn [wf fchk cstates Lower.fo] in Hwf, Hck, Hsub, HL.
+  destruct HN as (HNf & _ & _ & _). cbn [zfall Lower.fo] in HNf.
+  cbn [fneed] in Hf. destruct f as [|f]; [lia|].
+  cbn [exec ctree]. cbn [ctree] in H0.
+  set (Ec := {| e_brk := TStay; e_cnt := TStay; e_ret := rest |}) in *.
+  destruct (wf_noloop b _ _ first Hwf) as [Hzb Hzc].
+  apply (Pb j (S o) Ec first rest (KCall k) (S nf) (S nfl) false true); auto; [| |lia].
+  - split; [|split; [|split]].
+    + intros Hz f' inp' w' cur' Hf' Hc'. destruct f' as [|f']; [lia|]. cbn [cont].
+      apply HNf; [rewrite Hz; reflexivity|lia|exact Hc'].
+    + congruence.
+    + congruence.
+    + intros Hz f' inp' w' cur' Hf'. destruct f' as [|f']; [lia|]. cbn [exec unwind_call e_ret Ec].
+      assert (Hfs : fallspec j k rest (Lower.fo b first) nf) by (apply HNf; rewrite Hz; apply orb_true_r).
+      rewrite (zret_fo _ _ Hz) in Hfs. apply Hfs; [lia|discriminate].
+  - intros Hfo. specialize (HL Hfo). destruct j as [|j']; [exact I|]. cbn in HL. destruct HL as (HLf & _ & _).
+    split; [|split].
+    + intros f' inp' w' cur' Hf' Hc'. destruct f' as [|f']; [lia|]. cbn [cont]. apply HLf; [lia|exact Hc'].
+    + discriminate.
+    + intros _ f' inp' w' cur' Hf'. destruct f' as [|f']; [lia|]. cbn [exec unwind_call e_ret Ec].
+      apply HLf; [lia|discriminate].
 Qed.
 
 Lemma P_await c : P (Await c).
 Proof.
-  intros j o E first rest k nf nfl il _ Hck Hsub H0 HN HL f inp w cur Hf Hcur.
+  intros j o E first rest k nf nfl il ic _ Hck Hsub H0 HN HL f inp w cur Hf Hcur.
   cbn [fneed] in Hf. destruct f as [|f]; [lia|].
   destruct HN as (HNf & _ & _).
   assert (Hn : (nfl <= ref_fuel)%nat) by (destruct c; apply Nat.leb_le, Hck).
@@ -325,26 +415,26 @@ Proof.
   - rewrite (Hcur eq_refl). destruct (ceval inp (w_v w) c).
     + apply (HNf eq_refl); [lia|discriminate].
     + repeat split; [discriminate|]. cbn [fst].
-      apply (poll_sim p m c k rest E nfl il O (H0 eq_refl) Hn j (HL eq_refl)).
+      apply (poll_sim p m c k rest E nfl il ic O (H0 eq_refl) Hn j (HL eq_refl)).
   - repeat split; [discriminate|]. cbn [fst].
-    apply (poll_sim p m c k rest E nfl il o (Hsub _ _ (or_introl eq_refl)) Hn j (HL eq_refl)).
+    apply (poll_sim p m c k rest E nfl il ic o (Hsub _ _ (or_introl eq_refl)) Hn j (HL eq_refl)).
   - apply (HNf eq_refl); [lia|exact Hcur].
   - repeat split; [discriminate|]. cbn [fst].
-    apply (delay_sim p m k rest E nfl il o (Hsub _ _ (or_introl eq_refl)) Hn j (HL eq_refl)).
+    apply (delay_sim p m k rest E nfl il ic o (Hsub _ _ (or_introl eq_refl)) Hn j (HL eq_refl)).
   - rewrite (Hcur eq_refl). repeat split; [discriminate|]. cbn [fst]. apply halted_sim. exact (H0 eq_refl).
   - repeat split; [discriminate|]. cbn [fst]. apply halted_sim. exact (Hsub _ _ (or_introl eq_refl)).
 Qed.
 
 Lemma P_whilefalse b : P (WhileFalse b).
 Proof.
-  intros j o E first rest k nf nfl il _ Hck Hsub H0 HN HL f inp w cur Hf Hcur.
+  intros j o E first rest k nf nfl il ic _ Hck Hsub H0 HN HL f inp w cur Hf Hcur.
   cbn [fneed] in Hf. destruct f as [|f]; [lia|].
   destruct HN as (HNf & _ & _).
   assert (Hn : (nfl <= ref_fuel)%nat) by (apply Nat.leb_le, Hck).
   destruct first; cbn [exec ctree run_tree zfall fo cstates] in *.
   - apply (HNf eq_refl); [lia|exact Hcur].
   - repeat split; [discriminate|]. cbn [fst].
-    apply (delay_sim p m k rest E nfl il o (Hsub _ _ (or_introl eq_refl)) Hn j (HL eq_refl)).
+    apply (delay_sim p m k rest E nfl il ic o (Hsub _ _ (or_introl eq_refl)) Hn j (HL eq_refl)).
 Qed.
 
 End Exec.
@@ -355,69 +445,77 @@ Variable p : stmt.
 Variable m : machine.
 Local Notation sim := (sim p m).
 Local Notation fallspec := (fallspec p m).
+Local Notation retspec := (retspec p m).
 Local Notation Full := (Full p m).
 Local Notation Later := (Later p m).
 
-Variables (c : wcond) (b : stmt) (o h : nat) (rest : tree) (k : kont).
+Variables (c : wcond) (b : stmt) (o h : nat) (rest : tree) (k : kont) (E : env) (ic : bool).
 Hypothesis Pb : P p m b.
-Hypothesis Hwb : wf b true = true.
+Hypothesis Hwb : wf b true ic false = true.
 Hypothesis Hzc : zcnt b false = false.
-Let hd := whead c b o h rest.
-Let E' := {| e_brk := rest; e_cnt := hd |}.
+Let hd := whead c b o h rest (e_ret E).
+Let E' := {| e_brk := rest; e_cnt := hd; e_ret := e_ret E |}.
 Hypothesis Hh : tree_at m h = hd.
 Hypothesis Hsb : sub m (cstates b (S o) E' false (TGoto h)).
 
 (** the loop-head code: test, then body or exit - run with fuel [f] from any state *)
 Lemma body_run j nf0 nl :
   fchk b nl = true ->
-  sim j (LoopHead c b k) h -> Later j (KLoop c b k) (TGoto h) E' nl true ->
+  sim j (LoopHead c b k) h -> Later j (KLoop c b k) (TGoto h) E' nl true ic ->
   fallspec j k rest false nf0 ->
+  (zret b false = true -> retspec j k E nf0) ->
   forall f inp w cur, (fneed b (S nf0) <= f)%nat -> (nf0 <= f)%nat ->
     good (sim j) (if oceval inp (w_v w) c then exec f inp b (KLoop c b k) false w else cont f inp k false w)
          (run_tree inp hd cur w).
 Proof.
-  intros Hck Hs HLk Hfk f inp w cur Hf1 Hf2.
+  intros Hck Hs HLk Hfk Hrk f inp w cur Hf1 Hf2.
   assert (Hbody : good (sim j) (exec f inp b (KLoop c b k) false w)
-                       (run_tree inp (ctree b (S o) {| e_brk := rest; e_cnt := TStay |} false (TGoto h)) cur w)).
-  { rewrite (ctree_indep b (S o) _ E' false (TGoto h) (TGoto h)); [|reflexivity|reflexivity|congruence].
+                       (run_tree inp (ctree b (S o) {| e_brk := rest; e_cnt := TStay; e_ret := e_ret E |} false (TGoto h)) cur w)).
+  { rewrite (ctree_indep b (S o) _ E' false (TGoto h) (TGoto h)); [|reflexivity|reflexivity|congruence|reflexivity].
     assert (HNow : Now p m j b false (KLoop c b k) (TGoto h) E' (S nf0)).
-    { split; [|split].
+    { split; [|split; [|split]].
       + intros _ f' inp' w' cur' Hf' _. destruct f' as [|f']; [lia|]. cbn [cont].
         repeat split; [discriminate|exact Hs].
       + intros _ f' inp' w' cur' Hf'. destruct f' as [|f']; [lia|]. cbn [exec unwind_loop e_brk E'].
         apply Hfk; [lia|discriminate].
-      + congruence. }
-    apply (Pb j (S o) E' false (TGoto h) (KLoop c b k) (S nf0) nl true); auto; discriminate. }
+      + congruence.
+      + intros Hz f' inp' w' cur' Hf'. rewrite exec_ret_kloop. cbn [e_ret E']. apply (Hrk Hz). lia. }
+    apply (Pb j (S o) E' false (TGoto h) (KLoop c b k) (S nf0) nl true ic); auto; discriminate. }
   unfold hd, whead. destruct c as [|c0]; cbn [oceval run_tree].
   - exact Hbody.
   - destruct (ceval inp (w_v w) c0); [exact Hbody|]. apply Hfk; [lia|discriminate].
 Qed.
 
-Lemma loop_ok nfl E il :
+Lemma loop_ok nfl il :
   let nl := S (S (fneed b (S nfl))) in
   fchk b nl = true -> (fneed b (S nfl) <= ref_fuel)%nat -> (nfl <= ref_fuel)%nat ->
-  forall j, Later j k rest E nfl il ->
-    sim j (LoopHead c b k) h /\ Later j (KLoop c b k) (TGoto h) E' nl true.
+  forall j, Later j k rest E nfl il ic ->
+    sim j (LoopHead c b k) h /\ Later j (KLoop c b k) (TGoto h) E' nl true ic.
 Proof.
   intros nl Hck Hr1 Hr2. induction j as [|j IH]; intros HL; [split; exact I|].
-  cbn [Lower.fo] in *. destruct (IH (Full_Later p m _ _ _ _ _ _ HL)) as [Hs HLk].
+  cbn [Lower.fo] in *. destruct (IH (Full_Later p m _ _ _ _ _ _ _ HL)) as [Hs HLk].
+  destruct HL as (HLf & HLbc & HLr).
+  assert (Hrk : zret b false = true -> retspec j k E nfl).
+  { intros Hz. destruct ic; [exact (HLr eq_refl)|]. pose proof (wf_nocall b _ _ false Hwb). congruence. }
   assert (Hs' : sim (S j) (LoopHead c b k) h).
   { intros inp w. rewrite Hh. cbn [rclock].
-    apply (body_run j nfl nl Hck Hs HLk (proj1 HL)); assumption. }
-  split; [exact Hs'|]. cbn [LowerProofs.Later]. split.
+    apply (body_run j nfl nl Hck Hs HLk HLf Hrk); assumption. }
+  pose proof (fneed_ge b (S nfl)) as Hge.
+  split; [exact Hs'|]. cbn [LowerProofs.Later]. split; [|split].
   - intros f inp w cur Hf _. destruct f as [|f]; [unfold nl in Hf; lia|]. cbn [cont].
     repeat split; [discriminate|exact Hs].
   - intros _. split.
     + intros f inp w cur Hf. destruct f as [|f]; [unfold nl in Hf; lia|]. cbn [exec unwind_loop e_brk E'].
-      apply (proj1 HL); [unfold nl in Hf; pose proof (fneed_ge b (S nfl)); lia|discriminate].
+      apply HLf; [unfold nl in Hf; lia|discriminate].
     + intros f inp w cur Hf. destruct f as [|f]; [unfold nl in Hf; lia|]. cbn [exec unwind_loop e_cnt E'].
-      apply (body_run j nfl nl Hck Hs HLk (proj1 HL)); unfold nl in Hf; pose proof (fneed_ge b (S nfl)); lia.
+      apply (body_run j nfl nl Hck Hs HLk HLf Hrk); unfold nl in Hf; lia.
+  - intros Hic f inp w cur Hf. rewrite exec_ret_kloop. cbn [e_ret E']. apply (HLr Hic). unfold nl in Hf. lia.
 Qed.
 End Loop.
 
 Lemma P_while p m c b : P p m b -> P p m (While c b).
 Proof.
-  intros Pb j o E first rest k nf nfl il Hwf Hck Hsub H0 HN HL f inp w cur Hf Hcur.
+  intros Pb j o E first rest k nf nfl il ic Hwf Hck Hsub H0 HN HL f inp w cur Hf Hcur.
   cbn [wf] in Hwf. apply andb_true_iff in Hwf. destruct Hwf as [Hwb Hzc]. apply negb_true_iff in Hzc.
   cbn [fchk] in Hck. apply andb_true_iff in Hck. destruct Hck as [Hck Hcb].
   apply andb_true_iff in Hck. destruct Hck as [Hr1 Hr2]. apply Nat.leb_le in Hr1, Hr2.
@@ -426,19 +524,19 @@ Proof.
   cbn [fneed] in Hf. destruct f as [|f]; [lia|].
   destruct first.
   - (* the first state is the loop head *)
-    assert (Hh : tree_at m O = whead c b o O rest) by exact (H0 eq_refl).
-    destruct (loop_ok p m c b o O rest k Pb Hwb Hzc Hh Hsb nfl E il Hcb Hr1 Hr2 j HL) as [Hs HLk].
-    cbn [exec]. change (ctree (While c b) o E true rest) with (whead c b o O rest).
-    destruct HN as (HNf & _ & _). specialize (HNf eq_refl). cbn [Lower.fo] in HNf.
-    apply (body_run p m c b o O rest k Pb Hwb Hzc Hh Hsb j nf _ Hcb Hs HLk HNf); lia.
-  - assert (Hh : tree_at m o = whead c b o o rest) by exact (Hsh _ _ (or_introl eq_refl)).
-    destruct (loop_ok p m c b o o rest k Pb Hwb Hzc Hh Hsb nfl E il Hcb Hr1 Hr2 j HL) as [Hs HLk].
+    assert (Hh : tree_at m O = whead c b o O rest (e_ret E)) by exact (H0 eq_refl).
+    destruct (loop_ok p m c b o O rest k E ic Pb Hwb Hzc Hh Hsb nfl il Hcb Hr1 Hr2 j HL) as [Hs HLk].
+    cbn [exec]. change (ctree (While c b) o E true rest) with (whead c b o O rest (e_ret E)).
+    destruct HN as (HNf & _ & _ & HNr). specialize (HNf eq_refl). cbn [Lower.fo] in HNf. cbn [zret andb] in HNr.
+    apply (body_run p m c b o O rest k E ic Pb Hwb Hzc Hh Hsb j nf _ Hcb Hs HLk HNf HNr); lia.
+  - assert (Hh : tree_at m o = whead c b o o rest (e_ret E)) by exact (Hsh _ _ (or_introl eq_refl)).
+    destruct (loop_ok p m c b o o rest k E ic Pb Hwb Hzc Hh Hsb nfl il Hcb Hr1 Hr2 j HL) as [Hs HLk].
     cbn [exec ctree run_tree]. repeat split; [discriminate|exact Hs].
 Qed.
 
 Theorem all_P p m : forall s, P p m s.
 Proof.
-  induction s as [| e | a IHa b IHb |c t IHt e IHe|c b IHb| b _ |c| | | | | |].
+  induction s as [| e | a IHa b IHb |c t IHt e IHe|c b IHb| b _ |c| | | |b IHb| |].
   - apply P_skip.
   - apply P_eff.
   - apply P_seq; assumption.
@@ -448,10 +546,10 @@ Proof.
   - apply P_await.
   - apply P_break.
   - apply P_continue.
-  - intros j o E first rest k nf nfl il H; discriminate.
-  - intros j o E first rest k nf nfl il H; discriminate.
-  - intros j o E first rest k nf nfl il H; discriminate.
-  - intros j o E first rest k nf nfl il H; discriminate.
+  - apply P_return.
+  - apply P_call; assumption.
+  - intros j o E first rest k nf nfl il ic H; discriminate.
+  - intros j o E first rest k nf nfl il ic H; discriminate.
 Qed.
 
 (** ** the state table of [lower p]: names are positions, hence distinct *)
@@ -461,7 +559,7 @@ Proof. destruct s; cbn; lia. Qed.
 Lemma cstates_range s : forall o E f r x tx,
   In (x, tx) (cstates s o E f r) -> (o <= x < o + size s)%nat.
 Proof.
-  induction s as [| | a IHa b IHb |c t0 IHt e IHe|c b IHb| |c| | | | | |]; intros o E f r x tx H; cbn in H;
+  induction s as [| | a IHa b IHb |c t0 IHt e IHe|c b IHb| |c| | | |b0 IHb0| |]; intros o E f r x tx H; cbn in H;
     try contradiction.
   - apply in_app_or in H. destruct H as [H|H]; [apply IHa in H|apply IHb in H]; cbn [size]; lia.
   - apply in_app_or in H. destruct H as [H|H]; [apply IHt in H|apply IHe in H]; cbn [size]; lia.
@@ -470,6 +568,7 @@ Proof.
     + apply IHb in H. cbn [size]. lia.
   - destruct f; [contradiction|]. destruct H as [H|[]]. injection H as <- _. cbn [size]. lia.
   - destruct c; destruct f; try contradiction; destruct H as [H|[]]; injection H as <- _; cbn [size]; lia.
+  - apply IHb0 in H. cbn [size]. lia.
 Qed.
 
 Definition names_in (l : machine) (lo hi : nat) : Prop := forall n t, In (n, t) l -> (lo <= n < hi)%nat.
@@ -503,7 +602,7 @@ Qed.
 
 Lemma cstates_functional s : forall o E f r, functional (cstates s o E f r).
 Proof.
-  induction s as [| | a IHa b IHb |c t0 IHt e IHe|c b IHb| |c| | | | | |]; intros o E f r; cbn [cstates];
+  induction s as [| | a IHa b IHb |c t0 IHt e IHe|c b IHb| |c| | | |b0 IHb0| |]; intros o E f r; cbn [cstates];
     try (intros x tx []).
   - apply (functional_app _ _ (S o) (S o + size a) (S o + size a + size b)); auto.
     + intros x tx H. apply cstates_range in H. lia.
@@ -520,6 +619,7 @@ Proof.
     rewrite Nat.eqb_refl. reflexivity.
   - destruct c; destruct f; intros x tx H; try contradiction; destruct H as [H|[]]; injection H as <- <-; cbn;
       rewrite Nat.eqb_refl; reflexivity.
+  - apply IHb0.
 Qed.
 
 Lemma lower_sub p : sub (lower p) (cstates p 1 env0 true (TGoto O)).
@@ -536,11 +636,12 @@ Proof.
   apply andb_true_iff in Hg. destruct Hg as [Hwf Hck]. apply Nat.leb_le in Hfuel.
   induction j as [|j IH]; [exact I|].
   intros inp w. cbn [rclock]. change (tree_at (lower p) O) with (ctree p 1 env0 true (TGoto O)).
-  apply (all_P p (lower p) p j 1%nat env0 true (TGoto O) KStop 1%nat 1%nat false); auto.
+  apply (all_P p (lower p) p j 1%nat env0 true (TGoto O) KStop 1%nat 1%nat false false); auto.
   - apply lower_sub.
-  - destruct (wf_noloop p true Hwf) as [Hb Hc]. split; [|split]; [|congruence|congruence].
+  - destruct (wf_noloop p _ _ true Hwf) as [Hb Hc]. pose proof (wf_nocall p _ _ true Hwf) as Hr.
+    split; [|split; [|split]]; [|congruence|congruence|congruence].
     intros _ f inp' w' cur Hf _. destruct f as [|f]; [lia|]. cbn [cont]. repeat split; [discriminate|exact IH].
-  - intros _. destruct j as [|j]; [exact I|]. split; [|discriminate].
+  - intros _. destruct j as [|j]; [exact I|]. split; [|split; discriminate].
     intros f inp' w' cur Hf _. destruct f as [|f]; [lia|]. cbn [cont]. repeat split; [discriminate|].
     apply sim_mono. exact IH.
 Qed.
@@ -591,7 +692,8 @@ Definition ex_prog : stmt :=
           (Seq (Await (ACond (CIn 0)))
            (Seq (While (WCond (CIn 1))
                   (Seq (Eff 2) (Seq (Await (ACond (CIn 0))) (If (CVar 1) Break Skip))))
-            (If (CIn 1) Break (Seq (Eff 4) Continue)))))
+            (Seq (Call (Seq (Await (ACond (CIn 1))) (If (CIn 0) Return (Eff 5))))
+             (If (CIn 1) Break (Seq (Eff 4) Continue))))))
     (Seq (Eff 3) (Await (ACond (CIn 1))))).
 
 Lemma ex_prog_ok : in_grammar ex_prog = true /\ Nat.leb 3 (length (lower ex_prog)) = true.
